@@ -13,6 +13,7 @@ func init() {
 	vhRegister("VH_C02_Grouping", func(p []int) { VH_C02_Grouping(p[0], p[1]) })
 	vhRegister("VH_C02_Category", func(p []int) { VH_C02_Category(p[0], p[1]) })
 	vhRegister("VH_C03_Labels", func(p []int) { VH_C03_Labels(p[0]) })
+	vhRegister("VH_C08_Retain", func(p []int) { VH_C08_Retain(p[0]) })
 }
 
 var errNever = errors.New("never")
@@ -70,6 +71,33 @@ func VH_C02_Grouping(U, ins int) {
 	vhAssert(!h.ghost.touchedInvalid, "no invalid event touched")
 	vhObserve("calls", uint64(calls))
 	vhCover("grouping")
+}
+
+// VH_C08_Retain: the handler keeps every transaction it is given; after the stream has ended
+// (any amount of further stream activity) each retained transaction still reads exactly as it
+// did at delivery time: same changes in the same order, same kinds, SQL, timestamps and labels.
+func VH_C08_Retain(U int) {
+	h := vhGenHistory(U, 0, false)
+	s := newModelStreamer(h, &vMapper{})
+	ch := h.channel()
+	var kept []*Transaction
+	var keptEvents [][]*StreamEvent
+	s.sendTransaction = func(t *Transaction) error {
+		vhCheckTran(h, len(kept), t, true)
+		kept = append(kept, t)
+		keptEvents = append(keptEvents, append([]*StreamEvent{}, t.Events...))
+		return nil
+	}
+	_, err := s.parseEvents(context.Background(), ch)
+	vhAssert(err == nil, "well-formed history parses without error")
+	for k, t := range kept {
+		vhAssert(len(t.Events) == len(keptEvents[k]), "a delivered transaction keeps its changes after further stream activity")
+		for i := range keptEvents[k] {
+			vhAssert(t.Events[i] == keptEvents[k][i], "a delivered transaction's change list is not overwritten by later transactions")
+		}
+		vhCheckTran(h, k, t, true)
+	}
+	vhCover("retain")
 }
 
 var vKeywords = []string{"begin", "commit", "rollback", "insert", "update", "delete", "create", "alter", "drop", "truncate", "rename", "set"}
